@@ -4,7 +4,8 @@ import asyncio
 
 
 def plan(tier, seed):
-    return [('wire-wrap', 1000 if tier == 'quick' else 12000), ('dup-id', len(_dup_cases()))]
+    return [('wire-wrap', 1000 if tier == 'quick' else 12000), ('dup-id', len(_dup_cases())),
+            ('held-publisher', 200 if tier == 'quick' else 3000)]
 
 
 async def _wrap(rng, desc):
@@ -130,6 +131,67 @@ def gen_wrap(rng):
             'interactions': [{k: v for k, v in s.items() if k in ('iid', 'side', 'model', 'long')} for s in specs]}
 
 
+# ---- an id handed out to a publisher that is subscribed only later ------------------------------------------
+
+
+async def _held(rng, d):
+    """request_stream() / request_channel() hand out an id when they are called; the publisher may be subscribed
+    much later. Until that stream has ended the id is in use: the allocator must skip it when it wraps."""
+    from ..pair import Pair
+    from .. import mixgen
+    from ..apps import RecSubscriber, make_payload, DIR_REQUEST, DIR_RESPONSE
+    cfg = mixgen.draw_config(rng, frags=(None,))
+    cfg['instrument_queue'] = True
+    p = Pair(rng, cfg)
+    p.driver.horizon = 1.0e5
+    await p.start()
+    for side in 'cs':
+        p.ep(side)._stream_control._maximum_stream_id = d['space']
+    world = p.world
+    side = d['side']
+    ep = p.ep(side)
+    specs = []
+    held_iid = 900
+    hs = {'iid': held_iid, 'side': side, 'model': d['model'], 'req': (12, 0),
+          'resp': {'elems': [(3, 0)] * 2, 'terminal': 'complete', 'pacing': ('sync',), 'source': 'rec'}}
+    world.specs[held_iid] = hs
+    world.inter[held_iid] = {}
+    for i in range(d['before']):
+        specs.append({'iid': 1 + i, 'side': side, 'model': 'rr', 'start': ('none',), 'req': (12, 0),
+                      'resp': {'size': (4, 0), 'outcome': 'ok', 'delay': ('none',)}})
+    for s in specs:
+        world.specs[s['iid']] = s
+        world.inter[s['iid']] = {}
+        await p.driver.run_interaction(ep, side, s)
+    payload = make_payload(held_iid, DIR_REQUEST, 0, 12, 0)
+    pub = ep.request_stream(payload) if d['model'] == 'stream' else ep.request_channel(payload)
+    held = getattr(pub, 'stream_id', None)
+    mark = len(world.events)
+    later = []
+    for i in range(d['between']):
+        s = {'iid': 100 + i, 'side': side, 'model': 'rr', 'start': ('none',), 'req': (12, 0),
+             'resp': {'size': (4, 0), 'outcome': 'ok', 'delay': ('none',)}}
+        world.specs[s['iid']] = s
+        world.inter[s['iid']] = {}
+        later.append(s)
+        await p.driver.run_interaction(ep, side, s)
+    interim = [e['f']['sid'] for e in world.events[mark:] if e['kind'] == 'queue' and e['ep'] == side and
+               e['f'].get('type', '').startswith('REQUEST_') and e['f']['type'] != 'REQUEST_N']
+    sub = RecSubscriber(world, held_iid, DIR_RESPONSE, 'held-sub', policy=('refill', 5, 0), initial_granted=5)
+    mark2 = len(world.events)
+    pub.initial_request_n(5).subscribe(sub)
+    await asyncio.sleep(1.0)
+    after = [e['f']['sid'] for e in world.events[mark2:] if e['kind'] == 'queue' and e['ep'] == side and
+             e['f'].get('type') in ('REQUEST_STREAM', 'REQUEST_CHANNEL')]
+    results = [world.inter[s['iid']].get('result') for s in later]
+    got = list(sub.values)
+    log = [x[0] if isinstance(x, (list, tuple)) else x for x in getattr(sub, 'log', [])]
+    await p.close()
+    results = [r and (r[0],) for r in results]
+    return {'held_id': held, 'interim_ids': interim, 'request_frame_ids': after, 'later_results': results,
+            'held_elements': len(got), 'held_log': log[-4:]}, world
+
+
 # ---- duplicate id ---------------------------------------------------------
 
 
@@ -222,6 +284,27 @@ def run_case(gen, idx, rng, tier):
                   'ids_skipped_because_active': st['ids_skipped_because_active']})
         return {'evals': 1, 'nt_keys': [short_hash(public)] if st['wire_wraps_seen'] else [], 'deciding': d,
                 'witnesses': ws, 'sigs': [p.world.signature()], 'sample': public}
+    if gen == 'held-publisher':
+        space = rng.choice([0x7, 0xF, 0xF, 0x1F])
+        per_parity = (space + 1) // 2
+        d = {'space': space, 'side': rng.choice('cs'), 'model': rng.choice(['stream', 'channel']),
+             'before': rng.choice([0, 1, 3]), 'between': per_parity + rng.choice([0, 1, 2, per_parity])}
+        obs, world = vloop.run(_held(rng, d))
+        if obs['held_id'] is None:
+            return {'inconclusive': 'publisher has no stream_id attribute'}
+        wit = []
+        if obs['held_id'] in obs['interim_ids']:
+            wit.append({'clause': 'id-of-unsubscribed-publisher-handed-out-again', 'detail': {'case': d, 'observed': obs}})
+        if obs['request_frame_ids'] != [obs['held_id']]:
+            wit.append({'clause': 'held-publisher-request-frame-id-differs', 'detail': {'case': d, 'observed': obs}})
+        if obs['held_elements'] != 2:
+            wit.append({'clause': 'held-publisher-stream-not-served', 'detail': {'case': d, 'observed': obs}})
+        bad_later = [r for r in obs['later_results'] if not r or r[0] != 'result']
+        if bad_later:
+            wit.append({'clause': 'request-made-while-publisher-held-not-served', 'detail': {'case': d, 'observed': obs}})
+        dd = dict(base)
+        dd['held_publisher_wraps'] = 1 if len(obs['interim_ids']) >= per_parity else 0
+        return {'evals': 1, 'nt_keys': [short_hash(d)], 'deciding': dd, 'witnesses': wit[:2], 'sample': d}
     case = _dup_cases()[idx]
     errors, second_handled, original_ok, got = vloop.run(_dup(rng, case))
     wit = []
